@@ -730,7 +730,50 @@ func c18(r *mon.Run) {
 			}
 			t.Nontrivial("route:" + expr + strconv.Itoa(i%2))
 		}}
-	r.Exec(eq, paths, oddw, ffw, fiw, nrw, mixw, zsw, emb, anon, zvw, rw, safety, hostile)
+	// a function applied to a typed slice ([]float64, []string, [][]float64, []Inner) and the same slice navigated
+	// again in the same expression - before the call, after it, next to it: every part must read like the JSON form
+	// (a function that works on the caller's slice in place shows in the part evaluated after it)
+	fnavPaths := []string{"Flts", "Strs", "In.Nums", "In.Tags", "Grid[0]", "Ins[0].Nums", "Ins[0].Tags", "PIn.Nums", "PIns[0].Tags", "Ins[*].Num", "Grid[]"}
+	fnavFns := []func(p string) string{
+		func(p string) string { return "sort(" + p + ")" }, func(p string) string { return "reverse(" + p + ")" }, func(p string) string { return "max(" + p + ")" }, func(p string) string { return "min(" + p + ")" },
+		func(p string) string { return "sum(" + p + ")" }, func(p string) string { return "avg(" + p + ")" }, func(p string) string { return "length(" + p + ")" }, func(p string) string { return "join(',', " + p + ")" },
+		func(p string) string { return "to_array(" + p + ")" }, func(p string) string { return "not_null(" + p + ")" }, func(p string) string { return "sort_by(" + p + ", &@)" }, func(p string) string { return "map(&@, " + p + ")" },
+		func(p string) string { return "max_by(" + p + ", &@)" }, func(p string) string { return "reverse(sort(" + p + "))" }, func(p string) string { return "sort(" + p + ")[0]" }, func(p string) string { return "to_string(" + p + ")" },
+	}
+	fnavForms := []func(f, p string) string{
+		func(f, p string) string { return "[" + f + ", " + p + "]" }, func(f, p string) string { return "[" + p + ", " + f + ", " + p + "[0], " + p + "[-1]]" }, func(f, p string) string { return "(" + f + " || `1`) && " + p },
+		func(f, p string) string { return "{a: " + f + ", b: " + p + ", c: " + p + "[0]}" }, func(f, p string) string { return "[" + f + ", " + p + "] | [1]" }, func(f, p string) string { return "[" + f + ", " + f + ", " + p + "[::-1]]" },
+		func(f, p string) string { return "[" + f + "] | [0]" },
+	}
+	NP, NF, NM := len(fnavPaths), len(fnavFns), len(fnavForms)
+	fnav := mon.Workload{Name: "functions-then-navigation-on-typed-slices", N: NP * NF * NM * 4, Batch: 500,
+		Do: func(i int, t *mon.Tally) {
+			k := i / 4
+			path, fn, form := fnavPaths[k%NP], fnavFns[k/NP%NF], fnavForms[k/NP/NF]
+			rng := gen.DeriveN(r.Seed, "c18fnav", i%4)
+			o := docs.StructDoc(rng, 0).(docs.Outer)
+			// unsorted contents of at least three elements everywhere
+			o.Flts, o.Strs = []float64{3, -2, 1.5, 0}, []string{"t", "\u00e9", "s", ""}
+			o.In.Nums, o.In.Tags = []float64{30, 10, 20}, []string{"c", "a", "b"}
+			o.Grid = [][]float64{{2, 1, 3}, {9, 8}, {}}
+			in2 := o.In
+			in2.Nums, in2.Tags, in2.Num = []float64{2, 3, 1}, []string{"z", "y", "zz"}, 5
+			in3 := in2
+			in3.Nums, in3.Tags, in3.Num = []float64{7, 6}, []string{"q", "p"}, 4
+			o.Ins = []docs.Inner{in2, in3}
+			pin := in2
+			pin.Nums = []float64{5, 4, 6}
+			o.PIn = &pin
+			pin2 := in3
+			pin2.Tags = []string{"n", "m", "o"}
+			o.PIns = []*docs.Inner{&pin2, nil}
+			var goDoc interface{} = o
+			if i%2 == 1 {
+				goDoc = &o
+			}
+			c18EquivExpr(r, t, "functions-then-navigation-on-typed-slices", i, form(fn(path), path), goDoc, false, false)
+		}}
+	r.Exec(eq, paths, oddw, ffw, fiw, nrw, mixw, zsw, emb, anon, zvw, rw, safety, hostile, fnav)
 }
 
 func pickKey(operand string) string {
@@ -749,6 +792,10 @@ func c18Equiv(r *mon.Run, t *mon.Tally, wl string, idx int, tree *gen.Expr, goDo
 	if idx%2 == 1 {
 		expr = gen.SpellTight(tree) // (a short cut that recognises an expression from its text may only see one spelling)
 	}
+	c18EquivExpr(r, t, wl, idx, expr, goDoc, lower, mapRoot)
+}
+
+func c18EquivExpr(r *mon.Run, t *mon.Tally, wl string, idx int, expr string, goDoc interface{}, lower bool, mapRoot bool) {
 	generic := docs.ToGeneric(goDoc, lower)
 	if mapRoot {
 		// the generic map's own keys are not field names: keep them as written
@@ -759,9 +806,17 @@ func c18Equiv(r *mon.Run, t *mon.Tally, wl string, idx int, tree *gen.Expr, goDo
 		generic = m
 	}
 	t.Eval()
+	before := mon.Snapshot(generic)
 	og := apiSearch(expr, generic)
 	os := apiSearch(expr, goDoc)
 	desc := clipStr(mon.Show(generic), 400)
+	// the JSON form of the Go document is what it was: a search that rewrites a typed slice in place makes
+	// every later navigation of the same document differ from the JSON form the caller started with
+	if after := mon.Snapshot(docs.ToGeneric(goDoc, lower)); !mapRoot && after != before && mon.Snapshot(generic) == before {
+		r.Violate(&mon.Violation{Workload: wl, Index: idx, API: "Search", Expr: expr, DocDesc: "struct form of " + desc, Expected: "the Go document still has the JSON form it had before the search: " + clipStr(before, 300),
+			Observed: "its JSON form after the search: " + clipStr(after, 300), Class: wl + ": JSON form of the Go document changed by the search"})
+		return
+	}
 	if os.Panicked {
 		r.Violate(&mon.Violation{Workload: wl, Index: idx, API: "Search", Expr: expr, DocDesc: "struct form of " + desc, Expected: "no panic; generic form gives " + og.String(), Observed: os.String(), Detail: os.Stack, Class: wl + ": panic"})
 		return
